@@ -98,7 +98,7 @@ fn interpret8(start: Sty, text: &Sink<8>, strip: &mut StripModel, visible: &mut 
 /// One shape = which of the two colours are given (concrete); colours, data, the accepted
 /// count and the failing call are symbolic.
 macro_rules! colored_case {
-    ($name:ident, $has_fg:expr, $has_bg:expr) => {
+    ($name:ident, $has_fg:expr, $has_bg:expr, $fail_at:expr) => {
         #[kani::proof]
         #[kani::unwind(10)]
         fn $name() {
@@ -108,8 +108,9 @@ macro_rules! colored_case {
             let len: usize = kani::any();
             kani::assume(len <= 3);
             let accept: usize = kani::any();
-            let fail_at: usize = kani::any();
-            kani::assume(fail_at < 4 || fail_at == NEVER);
+            // the failing inner call is concrete per query (a symbolic one multiplies the
+            // formatting machinery); its kind, the colours, the data and the accepted count are symbolic
+            let fail_at: usize = $fail_at;
             let kind = any_kind();
             let mut script = Script::new(accept, fail_at, kind);
             let r = {
@@ -189,10 +190,21 @@ macro_rules! colored_case {
     };
 }
 
-colored_case!(colored_fg_bg, true, true);
-colored_case!(colored_fg_only, true, false);
-colored_case!(colored_bg_only, false, true);
-colored_case!(colored_none, false, false);
+colored_case!(colored_fg_bg_ok, true, true, NEVER);
+colored_case!(colored_fg_bg_fail0, true, true, 0);
+colored_case!(colored_fg_bg_fail1, true, true, 1);
+colored_case!(colored_fg_bg_fail2, true, true, 2);
+colored_case!(colored_fg_bg_fail3, true, true, 3);
+colored_case!(colored_fg_only_ok, true, false, NEVER);
+colored_case!(colored_fg_only_fail0, true, false, 0);
+colored_case!(colored_fg_only_fail1, true, false, 1);
+colored_case!(colored_fg_only_fail2, true, false, 2);
+colored_case!(colored_bg_only_ok, false, true, NEVER);
+colored_case!(colored_bg_only_fail0, false, true, 0);
+colored_case!(colored_bg_only_fail1, false, true, 1);
+colored_case!(colored_bg_only_fail2, false, true, 2);
+colored_case!(colored_none_ok, false, false, NEVER);
+colored_case!(colored_none_fail0, false, false, 0);
 
 /// The in-memory writer receives exactly the bytes the scripted `dyn Write` receives
 /// (whose framing the harnesses above interpret): same generic function, other writer type.
